@@ -9,10 +9,10 @@ import sys
 import types
 
 TOOL_ID = 4
-_state = {'installed': False, 'count': 0, 'limit': None, 'hits': 0}
+_state = {'installed': False, 'count': 0, 'limit': None, 'hits': 0, 'tripped': False, 'max_ratio': 0.0}
 
 
-class SimBudgetExceeded(Exception):
+class SimBudgetExceeded(BaseException):
     pass
 
 
@@ -42,9 +42,18 @@ def _cb(code, instruction_offset, destination_offset):
         _state['count'] += 1
         lim = _state['limit']
         if lim is not None and _state['count'] > lim:
-            _state['limit'] = None
-            _state['hits'] += 1
-            raise SimBudgetExceeded('loop budget of %d iterations exceeded' % lim)
+            # keeps raising at every further loop iteration until run() returns, so a handler inside the
+            # library cannot swallow it and carry on
+            if not _state['tripped']:
+                _state['tripped'] = True
+                _state['hits'] += 1
+            raise SimBudgetExceeded('step budget of %d exceeded' % lim)
+
+
+def _cb_start(code, instruction_offset):
+    # a call of a package function costs one step too: loops whose body is mostly calls (and little
+    # Python-level iteration) reach the budget in proportionate wall time
+    _state['count'] += 1
 
 
 def install():
@@ -54,6 +63,7 @@ def install():
     if mon.get_tool(TOOL_ID) is None:
         mon.use_tool_id(TOOL_ID, 'kneesim-budget')
     mon.register_callback(TOOL_ID, mon.events.JUMP, _cb)
+    mon.register_callback(TOOL_ID, mon.events.PY_START, _cb_start)
     n = 0
     for name in sorted(sys.modules):
         if name == 'kneeliverse' or name.startswith('kneeliverse.'):
@@ -61,7 +71,7 @@ def install():
             if mod is None:
                 continue
             for code in _codes_of(mod):
-                mon.set_local_events(TOOL_ID, code, mon.events.JUMP)
+                mon.set_local_events(TOOL_ID, code, mon.events.JUMP | mon.events.PY_START)
                 n += 1
     _state['installed'] = True
     return n
@@ -72,12 +82,16 @@ def run(limit, fn, *args, **kwargs):
     propagate."""
     _state['count'] = 0
     _state['limit'] = int(limit)
+    _state['tripped'] = False
     try:
         return ('ok', fn(*args, **kwargs))
     except SimBudgetExceeded:
         return ('diverged', None)
     finally:
         _state['limit'] = None
+        r = _state['count'] / float(limit)
+        if r > _state['max_ratio'] and not _state['tripped']:
+            _state['max_ratio'] = r
 
 
 def hits():
@@ -85,4 +99,8 @@ def hits():
 
 
 def limit_for(n):
-    return 100000 + 200 * int(n)
+    """Steps (loop iterations + package-level calls) allowed for one public call on curves of n points.
+    The heaviest terminating paths are quadratic (grdp re-evaluates every segment per refinement, the
+    recursive multi-knee wrappers call an O(n) detector per split); measured use stays below 10 % of this."""
+    n = int(n)
+    return 20000 + 400 * n + 12 * n * n
